@@ -210,7 +210,13 @@ def oracle_c05(steps: list[Step]) -> list[Violation]:
             if actual != st.expected:
                 out.append(Violation("C05.wrong_tree", "decoded output differs from the model: expected %r got %r" % (st.expected, actual), st.i, f))
                 continue
-            if st.dec_out.shape.outer_kinds() != st.dec_before.shape.outer_kinds():
+            want_outer = st.dec_before.shape.outer_kinds()
+            if st.pred[1] == "create_layer" and want_outer[-1:] == ["call"]:
+                want_outer = want_outer + ["paren"]  # `f (let … in { … })`: a let argument needs parentheses
+            got_outer = st.dec_out.shape.outer_kinds()
+            if st.pred[1] == "drop_layer" and want_outer[-2:] == ["call", "paren"] and got_outer == want_outer[:-1] and not st.dec_out.layers:
+                got_outer = want_outer  # the parentheses around a let argument may go with the last layer
+            if got_outer != want_outer:
                 out.append(Violation("C05.wrappers_changed", "wrapper chain changed: %r -> %r" % (st.dec_before.shape.outer_kinds(), st.dec_out.shape.outer_kinds()), st.i, f))
                 continue
             for ms in (st.dec_out.target,) + tuple(st.dec_out.layers):
@@ -456,7 +462,12 @@ def oracle_c09(steps: list[Step], counters: dict | None = None) -> list[Violatio
         tb, ta = st.dec_before.shape.target, st.dec_out.shape.target
         body_b = st.dec_before.doc.data[tb.start_byte:tb.end_byte]
         body_a = st.dec_out.doc.data[ta.start_byte:ta.end_byte]
-        if canonical and body_b != body_a:
+        reindented = kind == "create_layer" and st.dec_before.shape.kinds()[-1:] == ["call"]
+        shifted = b"\n".join((b"  " + ln if ln.strip() and k else ln) for k, ln in enumerate(body_b.split(b"\n")))
+        unshifted = b"\n".join((ln[2:] if ln.startswith(b"  ") and k else ln) for k, ln in enumerate(body_b.split(b"\n")))
+        dedented = (kind == "drop_layer" and st.dec_before.shape.outer_kinds()[-2:] == ["call", "paren"]
+                    and st.dec_out.shape.outer_kinds()[-1:] == ["call"] and body_a == unshifted)
+        if canonical and body_b != body_a and not (reindented and body_a == shifted) and not dedented:
             out.append(Violation("C09.body_changed", "attribute set body changed by a scoped edit: %r -> %r" % (body_b[-120:], body_a[-120:]), st.i, f))
             continue
         if st.dec_before.doc.token_texts(tb) != st.dec_out.doc.token_texts(ta):
